@@ -10,6 +10,8 @@
 (*             directory outside the build directory, deletes, moves back   *)
 (*   rollback  a failing run restores the core data it found                *)
 (*   backup    coredata.dat.prev is a copy / coredata.dat is renamed to it  *)
+(*   piped     a machine file was given as a pipe: meson-private holds the *)
+(*             only copy; keepsIni: `--wipe` leaves that copy in place      *)
 (*   usesM/E   the directory holds values set by a machine file / taken    *)
 (*             from the environment of the first run                        *)
 (*   chunks    every file is written with 1..MaxChunks write() calls        *)
@@ -36,6 +38,7 @@ IntroOpts == "meson-info/intro-buildoptions.json"
 IntroTmp  == "meson-info/tmp_dump.json"
 CmdlTmp   == "meson-private/cmd_line.txt~"
 Backup    == "$TMP/cmd_line.txt"
+BackupIni == "$TMP/piped.native.ini"
 Priv      == "meson-private"
 Info      == "meson-info"
 
@@ -47,7 +50,7 @@ Designs ==
     { d \in [kind : Kinds, hist : {"fresh", "partial", "configured", "configured-prev"},
              coreP : Protocols, cmdlP : Protocols, ninjaP : Protocols, sync : BOOLEAN,
              order : Orders, wipeKeeps : BOOLEAN, rollback : BOOLEAN, ninja : BOOLEAN, chunks : 1..MaxChunks,
-             backup : {"copy", "rename"}, usesM : BOOLEAN, usesE : BOOLEAN] :
+             backup : {"copy", "rename"}, usesM : BOOLEAN, usesE : BOOLEAN, piped : BOOLEAN, keepsIni : BOOLEAN] :
         /\ d.kind \in {"setup", "setup-fail"} <=> d.hist \in {"fresh", "partial"}
         /\ d.kind # "wipe" => d.wipeKeeps                         \* irrelevant dimensions are fixed
         /\ d.kind \notin {"setup-fail", "reconfigure-fail"} => d.rollback
@@ -55,17 +58,21 @@ Designs ==
         /\ d.ninja => (d.order = "core-first" /\ ~d.usesE)       \* build.ninja plays no part in recovery
         /\ d.kind = "configure" => (~d.ninja /\ d.order # "core-last")
         /\ d.hist \in {"fresh", "partial"} => d.backup = "copy"   \* nothing to back up
+        \* a machine file given as a pipe: its private copy sets the class-m values
+        /\ d.piped => (d.usesM /\ ~d.ninja /\ ~d.usesE /\ d.backup = "copy")
+        /\ (d.kind # "wipe" \/ ~d.piped) => d.keepsIni
         \* values from the environment of the first run: a wipe is itself a new first run
         /\ d.usesE => d.kind \in {"reconfigure", "configure", "reconfigure-fail"}
         /\ Family = "legacy" => (/\ d.coreP = "atomic" /\ d.cmdlP = "inplace" /\ d.ninjaP = "atomic" /\ d.sync
                                  /\ d.order = (IF d.kind = "configure" THEN "cmdline-first" ELSE "core-first")
-                                 /\ (d.kind = "wipe" => ~d.wipeKeeps) /\ d.rollback /\ d.backup = "copy") }
+                                 /\ (d.kind = "wipe" => ~d.wipeKeeps) /\ d.rollback /\ d.backup = "copy" /\ ~d.piped) }
 
 \* backup by rename leaves a window without coredata.dat; a wipe removes coredata.dat by design, so a
 \* directory whose values came from machine files survives a killed wipe only with a first run that
 \* reads them back from cmd_line.txt
 SafeDesign(d) == /\ d.coreP = "atomic" /\ d.cmdlP = "atomic" /\ d.wipeKeeps /\ d.rollback /\ d.backup = "copy"
                  /\ (d.kind = "wipe" /\ d.usesM) => FirstRunReadsCmdline
+                 /\ d.keepsIni
 
 -----------------------------------------------------------------------------
 W(f, n) == [j \in 1..n |-> Op("write", f, "")]
@@ -114,18 +121,25 @@ Victims(d) == <<BuildDat, Install, IntroOpts>> \o (IF d.ninja THEN <<Ninja>> ELS
               \o (IF d.hist = "configured-prev" THEN <<CorePrev>> ELSE <<>>)
 Unlinks(fsq) == [j \in 1..Len(fsq) |-> Op("unlink", fsq[j], "")]
 
+\* `--wipe` parks copies of cmd_line.txt (and of the private machine-file copy) in a temporary directory
+\* outside, removes the tree - leaving in place what it `keeps` - and moves the copies back
 Wipe(d) ==
-    IF d.wipeKeeps
-    THEN \* everything but the recorded command line is removed, then a first configuration
-         (IF d.order = "core-last" THEN Unlinks(Victims(d) \o <<Core>>) ELSE Unlinks(<<Core>> \o Victims(d)))
-         \o Configure(d, FALSE)
-    ELSE \* copy to a temporary directory outside, remove the tree, recreate, move back
-         CopyF(Cmdl, Backup)
-         \o (IF d.order = "core-last" THEN Unlinks(<<Cmdl>> \o Victims(d) \o <<Core>>)
-             ELSE Unlinks(<<Core>> \o Victims(d) \o <<Cmdl>>))
-         \o <<Op("rmdir", Priv, ""), Op("rmdir", Info, ""), Op("mkdir", Priv, ""), Op("rename", Backup, Cmdl),
-              Op("mkdir", Info, "")>>
-         \o Configure(d, FALSE)
+    LET ini == d.piped
+        parkIni == IF ini THEN CopyF(MFile, BackupIni) ELSE <<>>
+        dropIni == IF ini /\ ~d.keepsIni THEN <<MFile>> ELSE <<>>
+        backIni == IF ini THEN <<Op("rename", BackupIni, MFile)>> ELSE <<>>
+    IN IF d.wipeKeeps
+       THEN CopyF(Cmdl, Backup) \o parkIni
+            \o (IF d.order = "core-last" THEN Unlinks(dropIni \o Victims(d) \o <<Core>>) ELSE Unlinks(<<Core>> \o Victims(d) \o dropIni))
+            \o <<Op("rename", Backup, Cmdl)>> \o backIni
+            \o Configure(d, FALSE)
+       ELSE CopyF(Cmdl, Backup) \o parkIni
+            \o (IF d.order = "core-last" THEN Unlinks(<<Cmdl>> \o dropIni \o Victims(d) \o <<Core>>)
+                ELSE Unlinks(<<Core>> \o Victims(d) \o <<Cmdl>> \o dropIni))
+            \o (IF ini /\ d.keepsIni THEN <<>> ELSE <<Op("rmdir", Priv, "")>>)
+            \o <<Op("rmdir", Info, ""), Op("mkdir", Priv, ""), Op("rename", Backup, Cmdl)>> \o backIni
+            \o <<Op("mkdir", Info, "")>>
+            \o Configure(d, FALSE)
 
 PreOf(d) ==
     CASE d.hist = "fresh"   -> <<>>
@@ -135,11 +149,13 @@ PreOf(d) ==
                     [f |-> IntroOpts, st |-> "full", ver |-> "old"]>>
                   \o (IF d.ninja THEN <<[f |-> Ninja, st |-> "full", ver |-> "old"]>> ELSE <<>>)
                   \o (IF d.hist = "configured-prev" THEN <<[f |-> CorePrev, st |-> "full", ver |-> "older"]>> ELSE <<>>)
+                  \o (IF d.piped THEN <<[f |-> MFile, st |-> "full", ver |-> "old"]>> ELSE <<>>)
 
 ScriptOf(d) ==
     [design |-> d, kind |-> d.kind, fresh |-> d.hist \in {"fresh", "partial"},
      failed |-> d.kind \in {"setup-fail", "reconfigure-fail"}, usesM |-> d.usesM, usesE |-> d.usesE, pre |-> PreOf(d),
-     ops |-> CASE d.kind = "setup"       -> (IF d.hist = "fresh" THEN Dirs ELSE <<Op("mkdir", Info, "")>>) \o Configure(d, FALSE)
+     ops |-> CASE d.kind = "setup"       -> (IF d.hist = "fresh" THEN Dirs ELSE <<Op("mkdir", Info, "")>>)
+                                            \o (IF d.piped THEN InPlace(MFile, 1) ELSE <<>>) \o Configure(d, FALSE)
                [] d.kind = "setup-fail"  -> (IF d.hist = "fresh" THEN Dirs ELSE <<Op("mkdir", Info, "")>>) \o FailingConfigure(d, FALSE)
                [] d.kind = "reconfigure" -> Configure(d, TRUE)
                [] d.kind = "reconfigure-fail" -> FailingConfigure(d, TRUE)
